@@ -22,8 +22,8 @@ PROPERTIES = ["C16"]
 MANIFEST = {
     "C16": {
         "technique": "Lean 4 proof about an executable model of src/Document/Xml.cpp (skipSpace/comment loop, readToken, parseElement/content loop with cursor rewind, processing-instruction loop, unescapeString/escapeString, Element::toString) + differential correspondence model vs the real Xml.cpp (ASan/UBSan, exactly sized heap copies, watchdog, allocation budget) + independent Python reference (strict regex tokenizer with tag stack, xml.etree, own serialiser, escape/unescape, position checks)",
-        "text": "Machine-checked theorems over ALL byte strings / ALL element trees of the model: parse_total (the loop fuel text-length+2 handed to every loop and to the recursion is never exhausted), parse_no_oob (every read goes through peek/cstr which yield .oob behind the terminator; never reached), error_pos_inside (a reported line/column is exactly the line/column of an offset 0..length of the text, CR LF / CR / LF line ends), comments_are_whitespace (in front of an XML comment skipSpace continues exactly as its outer loop does behind it, with right line bookkeeping; skipSpace is the only white-space skipper), pi_before_root_partial (a <?..?> whose body has no '<' and no '?>' — lone '?' and line breaks allowed — is stepped over by one round of the prologue loop), escape_unescape (unescape(escape s) = s for text and attribute mode), roundtrip / roundtrip_element / roundtrip_inside (parse(toString e) = e up to recorded line/column for every tree with well-formed names, distinct attribute keys, arbitrary NUL-free values, non-blank non-adjacent texts; by mutual induction on the tree with the parser positioned inside a larger text).  The model is tied to the current Xml.cpp on every run by executing identical op lines (parse, tostr, rt = Xml::toString then parse, esc, unesc, copy) on both and comparing ok/fail, error line/column/message class, the dump of the parsed tree with element positions, and serialised bytes: every byte string of length <= 3 (thorough 4) over a 14-symbol markup alphabet, all small element bodies / attribute lists, generated decorated documents (comments next to text, processing instructions with line breaks, entity and numeric references, both quote kinds), mutated and truncated documents, generated element trees incl. depth 1000.",
-        "note": "Trusted: Lean kernel + propext/Classical.choice/Quot.sound; the hand translation of Xml.cpp into the model (validated by the correspondence run, not proved) — it mirrors the REPAIRED sources (fixes/xml/0001-0004: line breaks in attribute values as &#10;/&#13;, no endless loop on a comment next to text, rewind after a failed look-ahead, line breaks counted inside <?..?>); entity table and escape conditions are written by hand in the model (not generated) and covered by esc/unesc on every single byte and all short strings.  libnstd String/HashMap/List are used as given (HashMap iteration = insertion order, append replaces an existing key's value); libc strpbrk/strchr/strncmp/strlen are list functions on the C string at a checked offset; glibc sscanf(\"#%u\") is modelled from its observed behaviour (white space, sign, strtoul saturation, cut to 32 bit).  pi_before_root is proved only for bodies without '<' (OPEN statement in Props.lean: behind a '?'/line break inside an instruction the code also skips a comment, so bodies with '<!--' behave differently).  comments_are_whitespace assumes a comment body as XML defines it (no '--').  'copies of element values are independent': in the model values are immutable; on the C++ side only Element-level copies (copy constructor, assignment, edits of the copy, destruction of the source first) are exercised by the `copy` op under ASan — Xml::Variant assignment and mutable toElement() on a shared value (defects D15/D16) belong to the Rc/Variant area and are kept out of these generators.  Stack depth of the recursive C++ parser is not modelled (documents nested 1000 deep are run; 10000 deep overflows the stack, outside the property's bound).  int overflow of line/column not modelled.  Allocation never fails.",
+        "text": "Machine-checked theorems over ALL byte strings / ALL element trees of the model: parse_total (the loop fuel text-length+2 handed to every loop and to the recursion is never exhausted), parse_no_oob (every read goes through peek/cstr which yield .oob behind the terminator; never reached), error_pos_inside (a reported line/column is exactly the line/column of an offset 0..length of the text, CR LF / CR / LF line ends), comments_are_whitespace (in front of a comment <!--body--> with no earlier '-->' skipSpace continues exactly as its outer loop does behind it, with right line bookkeeping; skipSpace is the only white-space skipper), pi_before_root_partial (a <?..?> whose body has no '<' and no '?>' — lone '?' and line breaks allowed — is stepped over by one round of the prologue loop), escape_unescape (unescape(escape s) = s for text and attribute mode), roundtrip / roundtrip_element / roundtrip_inside (parse(toString e) = e up to recorded line/column for every tree with well-formed names, distinct attribute keys, arbitrary NUL-free values, non-blank non-adjacent texts; by mutual induction on the tree with the parser positioned inside a larger text).  The model is tied to the current Xml.cpp on every run by executing identical op lines (parse, tostr, rt = Xml::toString then parse, esc, unesc, copy) on both and comparing ok/fail, error line/column/message class, the dump of the parsed tree with element positions, and serialised bytes: every byte string of length <= 3 (thorough 4) over a 14-symbol markup alphabet, all small element bodies / attribute lists, generated decorated documents (comments next to text, processing instructions with line breaks, entity and numeric references, both quote kinds), mutated and truncated documents, generated element trees incl. depth 1000.",
+        "note": "Trusted: Lean kernel + propext/Classical.choice/Quot.sound; the hand translation of Xml.cpp into the model (validated by the correspondence run, not proved) — it mirrors the REPAIRED sources (fixes/xml/0001-0004: line breaks in attribute values as &#10;/&#13;, no endless loop on a comment next to text, rewind after a failed look-ahead, line breaks counted inside <?..?>); entity table and escape conditions are written by hand in the model (not generated) and covered by esc/unesc on every single byte and all short strings.  libnstd String/HashMap/List are used as given (HashMap iteration = insertion order, append replaces an existing key's value); libc strpbrk/strchr/strncmp/strlen are list functions on the C string at a checked offset; glibc sscanf(\"#%u\") is modelled from its observed behaviour (white space, sign, strtoul saturation, cut to 32 bit).  pi_before_root is proved only for bodies without '<' (OPEN statement in Props.lean: behind a '?'/line break inside an instruction the code also skips a comment, so bodies with '<!--' behave differently).  'copies of element values are independent': in the model values are immutable; on the C++ side only Element-level copies (copy constructor, assignment, edits of the copy, destruction of the source first) are exercised by the `copy` op under ASan — Xml::Variant assignment and mutable toElement() on a shared value (defects D15/D16) belong to the Rc/Variant area and are kept out of these generators.  Stack depth of the recursive C++ parser is not modelled (documents nested 1000 deep are run; 10000 deep overflows the stack, outside the property's bound).  int overflow of line/column not modelled.  Allocation never fails.",
         "design_ref": "DESIGN.md 3/C16",
     }
 }
